@@ -2,6 +2,7 @@
 import importlib
 
 GROUPS = {
+    "C20": "stack",
     "C13": "adaptive",
     "C08": "budget",
     "C06": "timelimiter",
